@@ -298,8 +298,10 @@ func (m *Dev) abs(ev Event, got []Msg, signals int) *Violation {
 	// the last shaped value per axis for that). Where the values go depends on the mapping and the channel, though:
 	// a position that repeats the previous one after a channel or mapping action is judged like any other - by
 	// what the receiver then holds at the destination that is current now.
-	prevMap, prevCh, prevEpoch := st.lastMap, st.lastCh, st.lastEpoch
-	sameDest := prevMap == m.Map && prevCh == m.Ch
+	prevEpoch := st.lastEpoch
+	// nothing between the previous event of this axis and this one can have changed where its values go (coming
+	// back to the same mapping and channel after an excursion is not that: the axis may have moved meanwhile)
+	sameDest := st.seen && prevEpoch == m.destEpoch
 	sameInput := st.seen && st.lastRaw == ev.Value && prevEpoch == m.destEpoch
 	first := !st.seen // nothing of this axis has been transmitted yet: its first position is not a repetition of anything
 	st.seen, st.lastRaw, st.lastMap, st.lastCh, st.lastEpoch = true, ev.Value, m.Map, m.Ch, m.destEpoch
